@@ -271,6 +271,50 @@ def copier(total: int, flen: int, bs: int, mr: int, two: bool,
     return buf == SRC[:total] and all(m == 1 for m in mark)
 
 
+RANGES = [[], [(0, 6)], [(0, 2), (4, 2)], [(1, 3)], [(0, 1), (2, 1), (5, 1)], [(3, 3)]]
+
+
+class SparseSrc(SrcFile):
+    def __init__(self, h, ranges):
+        super().__init__(h)
+        self.ranges = ranges
+
+    async def request_ranges(self, offset, length):
+        for o, l in self.ranges:
+            yield o, l
+
+
+def sparse_copy(ri: int, bs: int, mr: int, two: bool,
+                c0: int, c1: int, c2: int, c3: int, c4: int, c5: int,
+                s0: int, s1: int, s2: int, s3: int, s4: int, s5: int) -> bool:
+    """Sparse copy: for any hole layout of a 6-byte file every byte inside a
+    data range is copied exactly once to its own offset, nothing is written
+    into a hole, whatever the completion order and short reads."""
+    ranges = pick(RANGES, ri)
+    sh = Shim([c0, c1, c2, c3, c4, c5], two)
+    hs = Handler(6, [s0, s1, s2, s3, s4, s5])
+    hd = Handler(0, [])
+    saved = S.asyncio
+    S.asyncio = sh
+    try:
+        cp = S._SFTPFileCopier(bs, mr, 6, True, FS(SparseSrc(hs, ranges)), FS(DstFile(hd)), b's', b'd', None)
+        r = drive(cp.run())
+    finally:
+        S.asyncio = saved
+    if r[0] != 'ret' or sh.max_pending > mr:
+        return False
+    buf, mark = _apply(hd.writes, 6)
+    if buf is None:
+        return False
+    for i in range(6):
+        inside = any(o <= i < o + l for o, l in ranges)
+        if inside and (mark[i] != 1 or buf[i] != SRC[i]):
+            return False
+        if not inside and mark[i] != 0:
+            return False
+    return True
+
+
 TEXTS = ['ab', 'é', '€x', 'z']
 
 
@@ -345,7 +389,12 @@ OBLIGATIONS = [
        pre=['s4 == 1 and s5 == 1 and c5 == 0'],
        timeout=150, thorough_timeout=400,
        functions=[S._SFTPFileCopier.run_task, S._SFTPFileCopier.run, S._SFTPParallelIO.iter],
-       bounds='announced size {0,4,5} (thorough 0..7) vs real source length {3,5,8}; block size 1..3, max_requests 1..3; any completion order and short reads; non-sparse'),
+       bounds='announced size {0,4,5} (thorough 0..7) vs real source length {3,5,8}; block size 1..3, max_requests 1..3; any completion order and short reads; non-sparse (sparse layouts: sparse_copy)'),
+    Ob('sparse_copy', sparse_copy, sym=dict(ri=R(0, 5), two=B, **_C, **_S),
+       shards=dict(bs=[1, 2], mr=[1, 3]), thorough_shards=dict(bs=[1, 2, 3], mr=[1, 2, 3], ri=[0, 1, 2, 3, 4, 5]),
+       pre=['s4 == 1 and s5 == 1 and c5 == 0'], timeout=250, thorough_timeout=600,
+       functions=[S._SFTPFileCopier.run, S._SFTPFileCopier.run_task, S._SFTPParallelIO.iter],
+       bounds='6-byte sparse source with 6 hole layouts (none, full, two ranges, inner range, three 1-byte ranges, tail), block size 1..2 (1..3), max_requests {1,3}, any completion order / short reads'),
     Ob('file_offsets', file_offsets,
        sym=dict(enc=R(0, 2), k0=R(0, 3), k1=R(0, 3), k2=R(0, 3), append=B, seek_to=R(-1, 3)),
        shards=dict(enc=[0, 1, 2]), timeout=150,
@@ -361,5 +410,5 @@ MANIFEST = dict(
          'wait), solver-chosen short-read counts, EOF inside the requested range and one optional failing request: the result equals the source '
          'bytes over the requested range, every byte is written exactly once at its offset, failures and a source shorter than announced raise, '
          'no request leaves the range, at most max_requests are outstanding; SFTPClientFile tracks byte offsets across text/bytes writes and seeks.',
-    note='Small sizes (<= 8 bytes, block size <= 3, <= 3 outstanding, 6 scheduling choices) sharded concretely; sparse-range copies, local file '
+    note='Small sizes (<= 8 bytes, block size <= 3, <= 3 outstanding, 6 scheduling choices) sharded concretely; local file '
          'glue of get/put/glob and real servers are outside. Trusted: CrossHair, z3, the asyncio shim and server model in props/C12.py.')
